@@ -13,6 +13,7 @@ import ganzhi as G
 def run(ctx):
     from rules import shared
     ctx.include('effect_inventory', shared.effect_inventory)   # no new process-wide mutable state (MIR statics inventory)
+    ctx.include('month_records', shared.month_records)   # the hour / day views sit on lunar days: month memo and per-value memo cells (shared, cached per source hash)
     I = ctx.interp(fuel=20000000)
     t = T(I)
     p = ctx.prog
